@@ -50,7 +50,10 @@ type call struct {
 	endAt int
 }
 
-type runInfo struct{ calls [][]*call }
+type runInfo struct {
+	calls   [][]*call
+	nprefix int // thread 0's first nprefix calls are the sequential set-up prefix
+}
 
 type locker interface {
 	LockKey(int)
@@ -173,6 +176,7 @@ func execute(cs Case, choose sched.Chooser, probe bool) (sched.Result, *runInfo)
 			}
 			if t == 0 {
 				runBlocks(cs.Prefix)
+				info.nprefix = len(info.calls[0])
 			}
 			runBlocks(cs.Progs[t])
 		}
@@ -262,44 +266,13 @@ func report(c *core.Ctx, cs Case, r sched.Result, info *runInfo) {
 			evs[j], evs[j-1] = evs[j-1], evs[j]
 		}
 	}
-	// "uncontended" (the property: Try* succeed when the key is free AND UNCONTENDED): waiting(i, t, k, w)
-	// = at step i some goroutine other than t stands at the blocking Lock (w: only a writer's Lock) or
-	// RLock hook of key k, i.e. its next step is that mutex step (or it is blocked there for good).
-	// Go's sync.RWMutex refuses new readers while a writer waits and sync.Mutex.TryLock may fail on a
-	// free mutex with queued waiters, so a Try* that fails in such a moment is NOT a violation. (Under the
-	// controlled scheduler a goroutine parked at the hook is not yet inside the real mutex, so the real
-	// Try* succeeds anyway and agrees with the model; the relaxation only keeps the oracle honest.)
-	waiting := func(i, t, k int, writerOnly bool) bool {
-		for t2, calls := range info.calls {
-			if t2 == t {
-				continue
-			}
-			next := -1 // t2's next step after i
-			for j := i + 1; j < len(r.Steps); j++ {
-				if r.Steps[j].T == t2 {
-					next = j
-					break
-				}
-			}
-			var cl *call
-			if next >= 0 {
-				if l := r.Steps[next].Label; l != "KM_Lock" && l != "KRW_Lock" && l != "KRW_RLock" {
-					continue
-				}
-				for _, e := range evs {
-					if e.step == next {
-						cl = e.c
-					}
-				}
-			} else if len(calls) > 0 && calls[len(calls)-1].endAt == 0 { // never steps again: blocked in its last call
-				cl = calls[len(calls)-1]
-			}
-			if cl != nil && cl.k == k && (cl.op == "Lock" || (cl.op == "RLock" && !writerOnly)) {
-				return true
-			}
-		}
-		return false
-	}
+	// "Try* succeed when the key is free AND UNCONTENDED": in Go a Try* may legitimately fail on a free key
+	// while another goroutine is operating on or queued at the same mutex (RWMutex refuses readers while a
+	// writer waits; Mutex.TryLock fails in starvation mode; RWMutex.TryLock/Unlock are not atomic). Under the
+	// CONTROLLED scheduler this never happens: exactly one goroutine runs between two hooks and a goroutine
+	// parked at a hook is not inside the real mutex, so here a Try* that fails on a free key is ALWAYS a
+	// violation (strict check, no contention excuse). The excuse would only apply where goroutines really
+	// block inside the mutexes, i.e. in the race-tier stress test, which has no Try-success oracle.
 	// oracle: per-key occupancy
 	writers := map[int]int{} // key -> thread+1 holding exclusively
 	readers := map[int]int{}
@@ -319,8 +292,8 @@ func report(c *core.Ctx, cs Case, r sched.Result, info *runInfo) {
 				if e.c.ok && !free {
 					fail = fmt.Sprintf("TryLockKey(%d) by thread %d succeeded while the key was held", k, e.t)
 				}
-				if !e.c.ok && free && !waiting(e.step, e.t, k, false) {
-					fail = fmt.Sprintf("TryLockKey(%d) by thread %d failed although the key was free and uncontended", k, e.t)
+				if !e.c.ok && free {
+					fail = fmt.Sprintf("TryLockKey(%d) by thread %d failed although the key was free (controlled run: nobody is inside the real mutex, so no contention excuse)", k, e.t)
 				}
 				if e.c.ok {
 					writers[k] = e.t + 1
@@ -340,8 +313,8 @@ func report(c *core.Ctx, cs Case, r sched.Result, info *runInfo) {
 				if e.c.ok && writers[k] != 0 {
 					fail = fmt.Sprintf("TryRLockKey(%d) succeeded while a writer held the key", k)
 				}
-				if !e.c.ok && writers[k] == 0 && !waiting(e.step, e.t, k, true) {
-					fail = fmt.Sprintf("TryRLockKey(%d) failed although no writer held the key and no writer was waiting", k)
+				if !e.c.ok && writers[k] == 0 {
+					fail = fmt.Sprintf("TryRLockKey(%d) failed although no writer held the key (controlled run: no writer can be waiting inside the real mutex)", k)
 				}
 				if e.c.ok {
 					readers[k]++
@@ -384,7 +357,10 @@ func report(c *core.Ctx, cs Case, r sched.Result, info *runInfo) {
 		if t >= len(cs.Progs) {
 			break // the probe touches every key: it does not make a case non-trivial
 		}
-		for _, cl := range calls {
+		for i, cl := range calls {
+			if t == 0 && i < info.nprefix {
+				continue // the set-up prefix runs alone: it does not make thread 0 a user of the key
+			}
 			if p, ok := seen[cl.k]; ok && p != t {
 				sameKey = true
 			}
